@@ -229,9 +229,9 @@ func checkC08(c *ev.Ctx) {
 	setupFixtures()
 	c.Rule("E1 BFS over histories of the real shimagent.Server: alphabet Lock/Unlock with passphrases {p,q,''}, lock/unlock refused by the underlying agent (failure reply; thorough: connection drop), and every other ShimAgent operation; roots = both upstream modes x 4 initial contents; reference lock automaton + differential twin that skips lock episodes. non-trivial = operation executed on a locked shim or a successful lock; distinct by (operation, memory table, underlying identities)")
 	c.Assume("the reflection walk finds the shim's in-memory table without naming it", "ground truth of the underlying agent is the harness-owned keyring")
-	depth, maxStates := 4, 0
+	depth, maxStates := 5, 0
 	if c.Thorough() {
-		depth = 6
+		depth = 7
 	}
 	runBFS(c, func(root string) bfs.World { return newC08World(c, root) }, c08Roots(), depth, maxStates)
 }
